@@ -136,10 +136,7 @@ func (uis *unresolvedTraceTagFilter) Analyze(s logical.Schema) (logical.Plan, er
 	var tagFilterMatcher model.TagFilterMatcher
 	var tagFilter logical.TagFilter
 	if uis.criteria != nil {
-		var orderByTags []string
-		if ok, indexRule := s.IndexRuleDefined(uis.orderByTag); ok {
-			orderByTags = indexRule.Tags
-		}
+		orderByTags := orderByRuleTags(s, uis.orderByTag)
 		skippedTagNames := make([]string, 0, len(orderByTags)+2)
 		skippedTagNames = append(skippedTagNames, uis.traceIDTagName, uis.spanIDTagName)
 		skippedTagNames = append(skippedTagNames, orderByTags...)
@@ -183,6 +180,27 @@ func (uis *unresolvedTraceTagFilter) selectTraceScanner(ctx *traceAnalyzeContext
 		maxVal:            maxVal,
 		groupIndex:        uis.groupIndex,
 	}
+}
+
+// orderByRuleTags returns the tags of the index rule the query is ordered by. orderByTag is the KEY TAG of that
+// rule (its last tag), not the rule's name: the rule is the one that ends with it. The secondary-index elements
+// of a rule do not store the rule's own tags (entity tags select the series, the key tag is the element key), so
+// conditions on them must be kept out of the element-level tag filter whatever the rule is called.
+func orderByRuleTags(s logical.Schema, orderByTag string) []string {
+	if orderByTag == "" {
+		return nil
+	}
+	if ts, ok := s.(*schema); ok && ts.common != nil {
+		for _, rule := range ts.common.IndexRules {
+			if tags := rule.GetTags(); len(tags) > 0 && tags[len(tags)-1] == orderByTag {
+				return tags
+			}
+		}
+	}
+	if ok, indexRule := s.IndexRuleDefined(orderByTag); ok {
+		return indexRule.Tags
+	}
+	return nil
 }
 
 type traceAnalyzeContext struct {
